@@ -193,6 +193,14 @@ func (vc *VC) decodeInto(a *ssa.Alloc, key string) {
 	reachHeapTypes(a.Type(), map[string]bool{}, hs)
 	nextOld := vc.getH(vc.st, "$next", "Int")
 	_ = el
+	// empty maps made for the variable before the call may be filled in place
+	exclFresh, orFresh := "", ""
+	for _, fv := range decoderFreshMaps(a) {
+		if t, ok := vc.vals[fv]; ok {
+			exclFresh += fmt.Sprintf(" (not (= r %s))", t)
+			orFresh += fmt.Sprintf(" (= (select %%[1]s r) %s)", t)
+		}
+	}
 	var names []string
 	for h := range hs {
 		names = append(names, h)
@@ -210,7 +218,7 @@ func (vc *VC) decodeInto(a *ssa.Alloc, key string) {
 		vc.havocCallH(h)
 		cur := vc.getH(vc.st, h, srt)
 		done = append(done, hv{h, old, cur})
-		vc.assume(fmt.Sprintf("(forall ((r Int)) (! (=> (and (< r %s) (not (= r %s))) (= (select %s r) (select %s r))) :pattern ((select %s r))))", nextOld, ref, cur, old, cur))
+		vc.assume(fmt.Sprintf("(forall ((r Int)) (! (=> (and (< r %s) (not (= r %s))%s) (= (select %s r) (select %s r))) :pattern ((select %s r))))", nextOld, ref, exclFresh, cur, old, cur))
 	}
 	vc.havocH(vc.st, "$next")
 	for _, x := range done {
@@ -221,7 +229,11 @@ func (vc *VC) decodeInto(a *ssa.Alloc, key string) {
 		var f string
 		switch types.Unalias(t).Underlying().(type) {
 		case *types.Pointer, *types.Map:
-			f = fmt.Sprintf("(or (= (select %s r) 0) (>= (select %s r) %s))", x.cur, x.cur, nextOld)
+			extra := ""
+			if orFresh != "" {
+				extra = fmt.Sprintf(orFresh, x.cur)
+			}
+			f = fmt.Sprintf("(or (= (select %s r) 0) (>= (select %s r) %s)%s)", x.cur, x.cur, nextOld, extra)
 		case *types.Slice:
 			f = fmt.Sprintf("(or (= (s_ref (select %s r)) 0) (>= (s_ref (select %s r)) %s))", x.cur, x.cur, nextOld)
 		default:
